@@ -602,6 +602,23 @@ static cfg_print_filter_func_t pffs[NPFF] = { pff0, pff1, pff2, pff3 };
 #define DM_ANNOT 4
 #define DM_NOSECMOD 8	/* no MODIFIED mark on section options */
 #define DM_FLOATF 16	/* floats to the precision the library prints them with (%f) */
+#define DM_GETTERS 32	/* read every option and titled instance back through the by-name getters as well */
+
+/* the name / title with the case of every ASCII letter flipped; NULL if there is no letter or a byte outside ASCII */
+static char *flip_case(const char *t)
+{
+	char *r, *p;
+	int letters = 0;
+	if (!t) return NULL;
+	r = strdup(t);
+	for (p = r; *p; p++) {
+		if ((unsigned char)*p > 127) { free(r); return NULL; }
+		if (*p >= 'a' && *p <= 'z') { *p -= 32; letters++; }
+		else if (*p >= 'A' && *p <= 'Z') { *p += 32; letters++; }
+	}
+	if (!letters) { free(r); return NULL; }
+	return r;
+}
 
 static void dump_sec(cfg_t *sec, int mode);
 
@@ -626,6 +643,14 @@ static void dump_opt(cfg_opt_t *o, int mode)
 			cfg_t *s = cfg_opt_getnsec(o, i);
 			if (!s) { fprintf(out, "NOSEC"); break; }
 			enc(out, cfg_title(s));
+			if ((mode & DM_GETTERS) && cfg_title(s) && (o->flags & CFGF_TITLE)) {
+				char *fl;
+				if (cfg_opt_gettsec(o, cfg_title(s)) != s) fprintf(out, "!gettsec");
+				if ((s->flags & CFGF_NOCASE) && (fl = flip_case(cfg_title(s))) != NULL) {
+					if (cfg_opt_gettsec(o, fl) != s) fprintf(out, "!gettsec-nocase");
+					free(fl);
+				}
+			}
 			dump_sec(s, mode);
 			break;
 		}
@@ -654,6 +679,14 @@ static void dump_sec(cfg_t *sec, int mode)
 	for (i = 0; (o = cfg_getnopt(sec, i)) != NULL; i++) {
 		if (i) fputc(' ', out);
 		dump_opt(o, mode);
+		if ((mode & DM_GETTERS) && o->name && o->name[0] && !strpbrk(o->name, "|=")) {
+			char *fl;
+			if (cfg_getopt(sec, o->name) != o) fprintf(out, "!getopt");
+			if ((sec->flags & CFGF_NOCASE) && (fl = flip_case(o->name)) != NULL) {
+				if (cfg_getopt(sec, fl) != o) fprintf(out, "!getopt-nocase");
+				free(fl);
+			}
+		}
 	}
 	fputc('}', out);
 }
@@ -953,6 +986,14 @@ static void do_op(char **t, int ntok)
 		else if (op[3] == 'b') rc = ntok > 4 ? cfg_setnbool(sec, s1, t[3][0] == '1' ? cfg_true : cfg_false, (unsigned)strtoul(t[4], NULL, 0)) : cfg_setbool(sec, s1, t[3][0] == '1' ? cfg_true : cfg_false);
 		else { s2 = dec(t[3], NULL); rc = ntok > 4 ? cfg_setnstr(sec, s1, s2, (unsigned)strtoul(t[4], NULL, 0)) : cfg_setstr(sec, s1, s2); }
 		fprintf(out, "r %s %d\n", op, rc);
+	} else if (!strcmp(op, "setstr_from")) {
+		/* <secref> <path> <index> <source path> <source index>: the string the library itself returns for the source is handed
+		 * straight back to the setter (an argument that aliases stored memory) */
+		const char *v;
+		NEED(6); SEC(t[1]); s1 = dec(t[2], NULL); s2 = dec(t[4], NULL);
+		v = cfg_getnstr(sec, s2, (unsigned)strtoul(t[5], NULL, 0));
+		rc = cfg_setnstr(sec, s1, v, (unsigned)strtoul(t[3], NULL, 0));
+		fprintf(out, "r setstr_from %d\n", rc);
 	} else if (!strcmp(op, "osetint") || !strcmp(op, "osetfloat") || !strcmp(op, "osetbool") || !strcmp(op, "osetstr")) {
 		unsigned idx;
 		NEED(4); OPT(t[1]); idx = (unsigned)strtoul(t[3], NULL, 0);
